@@ -127,6 +127,51 @@ def ob_seq(e1: int, e2: int, e3: int, e4: int, e5: int) -> bool:
     return SC.run_seq(P, [e1, e2, e3, e4, e5], step_check)
 
 
+def ob_stop_before_first_start(x: int) -> bool:
+    """the agent schedules its first automatic start a few seconds after boot (yabgp/agent: reactor.callLater(...,
+    bgp_peering.automatic_start)); an operator stop in that window must hold when the deferred call runs"""
+    w = S.boot(dict(P.get('cfg', {})))
+    w.ev_manual_stop()
+    mark = w.mark()
+    w.ev_auto_start()              # the deferred call fires
+    obs = SC.observe(w, mark)
+    cover('stopped')
+    if obs['connects'] != 0 or obs['writes'] != [] or w.state != S.IDLE or not all_timers_off(w):
+        return False
+    w.ev_manual_start()
+    return w.state == S.CONNECT and len([c_ for c_ in w.reactor.connectors if c_.state == 'connecting']) == 1
+
+
+def ob_stop_md5_refused(e1: int, e2: int) -> bool:
+    """TCP-MD5 key refused by the kernel (setsockopt raises in connect()): a stop still ends every attempt"""
+    evs = ['timer', 'tcp_fail', 'manual_start']
+    w = S.boot({'md5': 'k' * 81, 'md5_refused': True, 'connect_retry_time': 10})
+    for step in (w.ev_auto_start,):
+        try:
+            step()
+        except OSError:
+            pass
+    for e in (e1, e2)[:P['k']]:
+        assume(0 <= e < len(evs))
+        if not SC.applicable(w, evs[e]):
+            assume(False)
+        try:
+            if evs[e] == 'timer':
+                w.ev_fire(SC.next_timer(w))
+            else:
+                SC.inject(w, evs[e], 0, 0, 0)
+        except OSError:
+            pass
+    try:
+        w.ev_manual_stop()
+    except OSError:
+        pass
+    cover('stopped')
+    if [c_ for c_ in w.reactor.connectors if c_.state == 'connecting']:
+        return False
+    return w.state == S.IDLE and all_timers_off(w) and w.fsm.allow_automatic_start is False
+
+
 ALPHA = ['tcp_ok', 'tcp_fail', 'timer', 'manual_stop', 'manual_start', 'open_ok', 'ka', 'notif', 'peer_close',
          'close_done', 'upd', 'hdr_type']
 
@@ -151,6 +196,9 @@ def obligations(tier, seed):
     out.append(ob('C13/start/IDLE-stopped', 'ob_start', {'state': S.IDLE, 'auto': False}, covers=['started']))
     out.append(ob('C13/start/IDLE-stopped-closing', 'ob_start', {'state': S.IDLE, 'auto': False, 'closing': True},
                   covers=['started']))
+    out.append(ob('C13/stop/before-first-automatic-start', 'ob_stop_before_first_start', {}, covers=['stopped']))
+    for k in (0, 1, 2):
+        out.append(ob('C13/stop/md5-key-refused/k=%d' % k, 'ob_stop_md5_refused', {'k': k}, covers=['stopped']))
     out.append(ob('C13/closure/close_done', 'ob_closure', {'ev': 'close_done', 'closing': True}, covers=['closed']))
     for kind in ('bad-marker', 'unknown-type', 'open-wrong-as', 'keepalive', 'update', 'notification'):
         out.append(ob('C13/closure/late-data/%s' % kind, 'ob_closure', {'ev': 'late:' + kind, 'closing': True}, covers=['closed']))
